@@ -54,6 +54,9 @@ def run(ck):
                        "(as C08.4)")
     c08._eligibility(ck, {}, None, rule="C02.9", wiring=False)
     records_frozen(ck, "C02.11")
+    ck.clause("C02.12", "a joined record is built with the strand of its parts: Orientation and the exchange of query start / end follow "
+                        "the strand the listed pairs were made on (as C08.6)")
+    c08._joined_row(RuleView(ck, {"C08.6": "C02.12"}, only_constructs=(":reverseStrand",)))
     n = R.run_role_rule(ck, "C02.3", modules={"src.alignment.alignment_results", "src.alignment.aligner"})
     ck.floor("C02 role bindings judged", n, 40)
 
